@@ -125,12 +125,41 @@ func init() {
 			"CRC32C is an uninterpreted function; a changed record is assumed not to verify by an accidental checksum collision (probability 2^-32)",
 			"message times never decrease with offset and are not before 1970 when a time index is configured"}})
 	stepSplit := []SplitDim{{"layout", numLayouts}, {"ver", same("vers")}, {"prof", same("profs")}, {"params", same("paramsets")}, {"rmindex", same("rmindex")}}
-	stepQ := B{"segs": 2, "recs": 2, "vers": 3, "profs": 1, "paramsets": 2, "rmindex": 2, "batch": 2, "deletes": 2}
-	stepPublish := HarnessRun{Name: "h_step.Publish", Quick: stepQ, Split: stepSplit, Reach: []string{"rollover", "empty-batch", "empty-batch-with-rollover", "zero-time"}}
-	stepDelete := HarnessRun{Name: "h_step.Delete", Quick: stepQ, Split: stepSplit, Reach: []string{"empty-set", "negative-offset", "deleted-some", "head-emptied", "reader-segment-emptied", "head-rebased", "reader-segment-rebased", "head-tail-deleted"}}
-	stepReopen := HarnessRun{Name: "h_step.Reopen", Quick: stepQ, Split: stepSplit, Reach: []string{"eager-migrate", "readonly"}}
-	stepDelMulti := HarnessRun{Name: "h_step.DeleteMulti", Quick: stepQ, Split: stepSplit, Reach: []string{"deletemulti", "everything-deleted"}}
-	stepMigrate := HarnessRun{Name: "h_step.Migrate", Quick: stepQ, Split: stepSplit, Reach: []string{"migrate"}}
-	addProp(&Prop{ID: "T01", DesignRef: "scratch", Runs: []HarnessRun{stepPublish, stepDelete, stepReopen, stepDelMulti, stepMigrate}})
-	addProp(&Prop{ID: "C12", DesignRef: "DESIGN.md §4 C12", Runs: []HarnessRun{minOff}})
+	// bounds: segs/recs = directory shape; vers = version patterns (1: V2 only, 2: +all V1, 3: +V1 segments with a V2 head, 4: +V2 segments with a V1 head);
+	// paramsets = index configurations (1: times+keys, 2: +none, 3: +times only, 4: +keys only); rmindex = index-file removal patterns (1: none, 2: +all, 3: +first, 4: +head)
+	step := func(name string, q, t B, reach ...string) HarnessRun {
+		return HarnessRun{Name: "h_step." + name, Quick: q, Thorough: t, Split: stepSplit, Reach: reach}
+	}
+	stepT := B{"segs": 3, "recs": 2, "vers": 4, "profs": 2, "paramsets": 4, "rmindex": 4, "batch": 2, "deletes": 2}
+	delReach := []string{"empty-set", "negative-offset", "deleted-some", "head-emptied", "reader-segment-emptied", "head-rebased", "reader-segment-rebased", "head-tail-deleted"}
+	// C01: content fidelity across publish / delete / reopen
+	addProp(&Prop{ID: "C01", DesignRef: "DESIGN.md §4 C01, §3.5", Runs: []HarnessRun{
+		step("Publish", B{"segs": 2, "recs": 2, "vers": 2, "profs": 1, "paramsets": 2, "rmindex": 1, "batch": 2}, stepT, "rollover", "empty-batch", "empty-batch-with-rollover", "zero-time"),
+		step("Delete", B{"segs": 2, "recs": 2, "vers": 1, "profs": 1, "paramsets": 2, "rmindex": 1, "deletes": 1}, stepT, "deleted-some", "head-emptied", "reader-segment-emptied", "head-rebased", "reader-segment-rebased"),
+		step("Reopen", B{"segs": 2, "recs": 2, "vers": 3, "profs": 1, "paramsets": 1, "rmindex": 2}, stepT, "eager-migrate", "readonly", "all-index-files-removed"),
+	}, Assumptions: []string{"one inductive step from an arbitrary well-formed directory (DESIGN §3.2, §3.5); in-session chains longer than the harness performs are outside the claim",
+		"Check/Recover reopen with a time index only for non-decreasing, non-negative times"}})
+	// C02: offsets
+	addProp(&Prop{ID: "C02", DesignRef: "DESIGN.md §4 C02", Runs: []HarnessRun{
+		step("Reuse", B{"segs": 2, "recs": 2, "vers": 2, "profs": 1, "paramsets": 1, "rmindex": 1}, stepT, "all-deleted", "tail-deleted", "empty-head-reopened"),
+		step("Publish", B{"segs": 2, "recs": 1, "vers": 1, "profs": 1, "paramsets": 2, "rmindex": 1, "batch": 2}, stepT, "rollover", "empty-batch", "empty-batch-with-rollover"),
+		qStat,
+	}})
+	// C11: index files are derived data
+	addProp(&Prop{ID: "C11", DesignRef: "DESIGN.md §4 C11", Runs: []HarnessRun{
+		step("Reopen", B{"segs": 2, "recs": 2, "vers": 2, "profs": 1, "paramsets": 4, "rmindex": 4}, stepT, "all-index-files-removed", "readonly"),
+		step("Delete", B{"segs": 2, "recs": 2, "vers": 1, "profs": 1, "paramsets": 1, "rmindex": 2, "deletes": 1}, stepT, "deleted-some"),
+		step("Migrate", B{"segs": 2, "recs": 2, "vers": 3, "profs": 1, "paramsets": 2, "rmindex": 2}, stepT, "migrate"),
+		qKey, qTime,
+	}, Assumptions: []string{"index timestamps are compared with message times only when times never decrease with offset (and are not before 1970)"}})
+	// C17: migration and mixed versions
+	addProp(&Prop{ID: "C17", DesignRef: "DESIGN.md §4 C17", Runs: []HarnessRun{
+		step("Migrate", B{"segs": 2, "recs": 2, "vers": 4, "profs": 2, "paramsets": 2, "rmindex": 1}, stepT, "migrate"),
+		step("Reopen", B{"segs": 2, "recs": 2, "vers": 4, "profs": 1, "paramsets": 1, "rmindex": 1}, stepT, "eager-migrate"),
+		step("Delete", B{"segs": 2, "recs": 2, "vers": 4, "profs": 1, "paramsets": 1, "rmindex": 1, "deletes": 1}, stepT, "deleted-some", "head-rebased", "reader-segment-rebased"),
+		step("Publish", B{"segs": 2, "recs": 1, "vers": 4, "profs": 1, "paramsets": 1, "rmindex": 1, "batch": 1}, stepT, "rollover"),
+	}})
+	stepDelete := step("Delete", B{"segs": 2, "recs": 2, "vers": 2, "profs": 1, "paramsets": 1, "rmindex": 2, "deletes": 2}, stepT, delReach...)
+	stepDelMulti := step("DeleteMulti", B{"segs": 2, "recs": 2, "vers": 2, "profs": 1, "paramsets": 2, "rmindex": 2}, stepT, "deletemulti", "everything-deleted")
+	addProp(&Prop{ID: "C12", DesignRef: "DESIGN.md §4 C12", Runs: []HarnessRun{minOff, stepDelete, stepDelMulti}})
 }
